@@ -18,7 +18,7 @@ def codegen(name, features=()):
     d = crate_dir(name); target = target_dir(name, features)
     for p in glob.glob(os.path.join(target, 'kani', '**', '*.kani-metadata.json'), recursive=True): os.remove(p)
     os.utime(os.path.join(d, 'src', 'lib.rs'))      # force the harness crate itself to be re-generated (fresh metadata)
-    cmd = ['cargo', 'kani', '--only-codegen', '--target-dir', target] + (['--features', ','.join(features)] if features else [])
+    cmd = ['cargo', 'kani', '-Z', 'stubbing', '--only-codegen', '--target-dir', target] + (['--features', ','.join(features)] if features else [])
     r = core.sh(cmd, cwd=d, timeout=1800, env=KANI_ENV)
     if r.returncode != 0:
         raise core.Inconclusive('kani codegen of harness/%s failed (does /repo compile?):\n%s' % (name, (r.stdout + r.stderr)[-2500:]))
@@ -56,7 +56,7 @@ def parse(out):
 
 def run_one(name, harness, features=(), wall=600, mem_gb=12, extra=()):
     d = crate_dir(name); target = target_dir(name, features)
-    cmd = 'ulimit -v %d; exec timeout %d cargo kani --exact --harness %s --target-dir %s %s %s' % (
+    cmd = 'ulimit -v %d; exec timeout %d cargo kani -Z stubbing --exact --harness %s --target-dir %s %s %s' % (
         mem_gb * 1024 * 1024, wall, harness, target, ('--features ' + ','.join(features)) if features else '', ' '.join(extra))
     t = time.time()
     r = core.sh(cmd, cwd=d, timeout=wall + 120, env=KANI_ENV)
@@ -80,7 +80,7 @@ def playback(name, harness, features=(), expect_no_panic=False):
     shutil.rmtree(dst, ignore_errors=True); shutil.copytree(src, dst, ignore=shutil.ignore_patterns('target'))
     target = core.workdir('kani', name + '-pb')
     feat = ('--features ' + ','.join(features)) if features else ''
-    r = core.sh('timeout 900 cargo kani --harness %s --target-dir %s %s -Z concrete-playback --concrete-playback=inplace' % (harness.split('::')[-1], target, feat), cwd=dst, timeout=1000, env=KANI_ENV)
+    r = core.sh('timeout 900 cargo kani -Z stubbing --harness %s --target-dir %s %s -Z concrete-playback --concrete-playback=inplace' % (harness.split('::')[-1], target, feat), cwd=dst, timeout=1000, env=KANI_ENV)
     code = open(os.path.join(dst, 'src', 'lib.rs')).read()
     tests = re.findall(r'fn (kani_concrete_playback_\w+)\(\)', code)
     if not tests: return None, '', (r.stdout + r.stderr)[-1500:]
